@@ -150,7 +150,7 @@ def main(argv=None):
     ev["violations"] = len(violations)
     ev["known_findings"] = sorted(seen)
     ev["wall_s"] = round(time.time() - t0, 2)
-    if ev["level"] == "proof" and pstats and pstats["obligations"] != pstats["discharged"] and not violations:
+    if ev["level"] == "proof" and pstats and (pstats["obligations"] != pstats["discharged"] or undecided) and not violations:
         ev["level"] = "other"
     # evidence of runs against a scratch copy of the repository (VF_REPO, used to evaluate seeded changes) is kept apart
     evdir = "evidence" if os.environ.get("VF_REPO", "/repo") == "/repo" else os.path.join(".cache", "evidence_scratch")
@@ -180,6 +180,9 @@ def run_proof(a, cfg, known, violations, known_hits, undecided):
     for r in results:
         if r["error"]:
             return {"broken": f"job {r['job']} crashed: {r['error'][:400]}"}
+        if r.get("timeout"):
+            undecided.append({"name": f"{r['job']} (every obligation of this job)", "model": f"the job did not finish within {r['timeout']} s of wall-clock time, twice"})
+            continue
         for f in r["functions"]:
             if f["function"] not in fseen:
                 fseen.add(f["function"]); st["functions"].append(f)
